@@ -1,0 +1,143 @@
+//go:build verif
+
+package nclient6
+
+import (
+	"net"
+
+	"github.com/insomniacslk/dhcp/dhcpv6"
+)
+
+var _ net.Addr
+var _ = dhcpv6.NewMessage
+
+// Contracts for the retransmission logic of the DHCPv6 client (properties C11 and C12 of /verif). Compiled only with the
+// build tag "verif"; adds declarations and comments, changes nothing in the package.
+//
+// Virtual time (now()) and the datagrams handed to the connection (sends(), sentAt(), lastSentTo(), lastSent()) are
+// ghost state of the verifier (engine/concur.go): only a blocking select lets time pass, it cannot sleep past a timer it
+// listens to, and a timer case can only be taken once the timer has fired.
+
+// specBackoff(T, i): the timeout of try number i (0-based) for the configured timeout T
+//@ contract specBackoff
+//@   decreases i
+func specBackoff(T int, i int) int {
+	if i <= 0 {
+		return T
+	}
+	return 2 * specBackoff(T, i-1)
+}
+
+// environment: the logger and the matcher take no virtual time, transmit nothing and do not write the client's memory
+//@ contract nclient6.logger.PrintMessage
+//@   trusted
+//@ contract nclient6.logger.Printf
+//@   trusted
+//@ contract type Matcher
+//@   trusted
+
+// (what a try writes is not retryFn's business - "modifies *" - except that it leaves the client's configuration alone)
+// One try, as retryFn sees it: exactly one transmission, at the start of the try, unless the try ends with another
+// error than the deadline; the deadline error comes exactly timeout later, any other outcome no later than that.
+//@ contract fnparam (*Client).retryFn.fn
+//@   requires int(timeout) >= 0
+//@   modifies *
+//@   ensures[config] c.retry == old(c.retry) && c.timeout == old(c.timeout)
+//@   ensures[deadline] result == errDeadlineExceeded ==> now() == old(now()) + int(timeout) && sends() == old(sends()) + 1 && sentAt() == old(now())
+//@   ensures[accepted] result == nil ==> now() <= old(now()) + int(timeout) && sends() == old(sends()) + 1 && sentAt() == old(now())
+//@   ensures[bound] now() <= old(now()) + int(timeout) && now() >= old(now()) && sends() <= old(sends()) + 1 && sends() >= old(sends())
+//@   ensures[one-send] sends() == old(sends()) + 1 ==> sentAt() == old(now())
+
+// specBackoff grows with the try number
+//@ contract lemmaBackoffMono
+//@   requires T >= 0 && 0 <= i && i <= j
+//@   ensures specBackoff(T, i) <= specBackoff(T, j) && specBackoff(T, i) >= T
+//@   decreases j
+func lemmaBackoffMono(T, i, j int) {
+	if j > 0 && i < j {
+		lemmaBackoffMono(T, i, j-1)
+	}
+	if i > 0 {
+		lemmaBackoffMono(T, i-1, i-1)
+	}
+}
+
+// retryFn: try i (0-based) starts - and transmits - at offset T*(2^i - 1) from the start, with timeout T*2^i; when all
+// c.retry tries time out the deadline error is returned at T*(2^n - 1) after exactly n transmissions; a try that ends
+// otherwise ends the call at once, without further transmission; a negative try count never gives up by itself.
+//@ contract (*Client).retryFn
+//@   requires c != nil && int(c.timeout) >= 0 && fn != nil
+//@   let T = int(c.timeout)
+//@   let N = c.retry
+//@   let t0 = now()
+//@   let s0 = sends()
+//@   modifies *
+//@   ensures[exhausted] result == errDeadlineExceeded ==> N >= 0 && sends() == s0 + N && now() == t0 + specBackoff(T, N) - T
+//@   ensures[bound] N >= 0 ==> now() <= t0 + specBackoff(T, N) - T && sends() <= s0 + N
+//@   ensures[accepted] result == nil ==> sends() >= s0 + 1 && sentAt() <= now()
+//@   loop 0 invariant[config] c.retry == N && int(c.timeout) == T
+//@   loop 0 invariant[schedule] 0 <= i && (N >= 0 ==> i <= N) && int(timeout) == specBackoff(T, i) && now() == t0 + int(timeout) - T && sends() == s0 + i && T >= 0 && int(timeout) >= 0
+//@   after `switch err := fn(timeout); err {` use lemmaBackoffMono(T, i+1, ite(N >= i+1, N, i+1))
+//@   after `switch err := fn(timeout); err {` assert[try-starts-on-schedule] sends() == s0 + i + 1 ==> sentAt() == t0 + specBackoff(T, i) - T
+
+//@ define pktOK(m) = m != nil
+
+// send: a transaction id that is pending is refused and nothing is transmitted; otherwise the id is registered and the
+// encoding of msg is handed to the connection once, for dest, without any virtual time passing
+//@ contract (*Client).send
+//@   results resp, cancel, err
+//@   requires c != nil && c.conn != nil && c.pending != nil && pktOK(msg)
+//@   modifies c.pending
+//@   ensures[in-use] old(has(c.pending, msg.TransactionID)) ==> err != nil && sends() == old(sends())
+//@   ensures[sent] !old(has(c.pending, msg.TransactionID)) ==> sends() == old(sends()) + 1 && sentAt() == old(now())
+//@   ensures[sent-to] !old(has(c.pending, msg.TransactionID)) ==> lastSentTo() == dest
+//@   ensures[sent-bytes] !old(has(c.pending, msg.TransactionID)) ==> len(lastSent()) >= 4 && lastSent()[0:1] == specByte(int(msg.MessageType)) && lastSent()[1:4] == string(msg.TransactionID[:])
+//@   ensures[no-time] now() == old(now())
+//@   ensures[registered] err == nil ==> has(c.pending, msg.TransactionID) && resp != nil && cancel != nil
+//@   ensures[failed] err != nil ==> has(c.pending, msg.TransactionID) == old(has(c.pending, msg.TransactionID))
+//@   ensures[own-errors] err != errDeadlineExceeded
+
+// the function send returns: unregisters the transaction id; no time passes, nothing is transmitted
+//@ contract fnresult (*Client).send.result1
+//@   modifies c.pending
+//@   ensures[released] !has(c.pending, msg.TransactionID)
+//@   ensures[quiet] now() == old(now()) && sends() == old(sends()) && sentAt() == old(sentAt()) && lastSent() == old(lastSent()) && lastSentTo() == old(lastSentTo())
+
+//@ contract (*Client).send$1
+//@   requires c != nil && c.pending != nil && msg != nil && done != nil && (has(c.pending, msg.TransactionID) ==> c.pending[msg.TransactionID] != nil && c.pending[msg.TransactionID].ch != nil)
+//@   modifies c.pending
+//@   ensures[released] !has(c.pending, msg.TransactionID)
+//@   ensures[quiet] now() == old(now()) && sends() == old(sends()) && sentAt() == old(sentAt()) && lastSent() == old(lastSent()) && lastSentTo() == old(lastSentTo())
+
+// One try of SendAndRead (the function handed to retryFn): after the transmission it waits on the client's done
+// channel, the per-try timer, the context and the transaction's channel. It refines the model of a try that retryFn is
+// verified against (fnparam (*Client).retryFn.fn): the deadline error exactly timeout after the start, every other
+// outcome no later; exactly one transmission, at the start, of the packet's encoding to dest.
+//@ contract (*Client).SendAndRead$1
+//@   requires c != nil && c.conn != nil && c.logger != nil && c.pending != nil && ctx != nil && pktOK(msg) && int(timeout) >= 0
+//@   let t0 = now()
+//@   let s0 = sends()
+//@   let MT = int(msg.MessageType)
+//@   let X = string(msg.TransactionID[:])
+//@   modifies c.pending, &response
+//@   ensures[deadline] result == errDeadlineExceeded ==> now() == t0 + int(timeout) && sends() == s0 + 1 && sentAt() == t0
+//@   ensures[accepted] result == nil ==> now() <= t0 + int(timeout) && sends() == s0 + 1 && sentAt() == t0
+//@   ensures[bound] now() <= t0 + int(timeout) && now() >= t0 && sends() <= s0 + 1 && sends() >= s0
+//@   ensures[one-send] sends() == s0 + 1 ==> sentAt() == t0 && len(lastSent()) >= 4 && lastSent()[0:1] == specByte(MT) && lastSent()[1:4] == X && lastSentTo() == net.Addr(dest)
+//@   ensures[in-use] old(has(c.pending, msg.TransactionID)) ==> result != nil && sends() == s0 && now() == t0
+//@   loop 0 invariant[timer] isTimer(deadline) && fireAt(deadline) == t0 + int(timeout)
+//@   loop 0 invariant[time] t0 <= now() && now() <= t0 + int(timeout)
+//@   loop 0 invariant[sent] sends() == s0 + 1 && sentAt() == t0 && len(lastSent()) >= 4 && lastSent()[0:1] == specByte(MT) && lastSent()[1:4] == X && lastSentTo() == net.Addr(dest) && !old(has(c.pending, msg.TransactionID))
+
+// SendAndRead: the internal deadline error never reaches the caller; with n = c.retry >= 0 tries the call ends no later
+// than T*(2^n - 1) after it began, having transmitted at most n times
+//@ contract (*Client).SendAndRead
+//@   requires c != nil && c.conn != nil && c.logger != nil && c.pending != nil && ctx != nil && pktOK(msg) && int(c.timeout) >= 0
+//@   let T = int(c.timeout)
+//@   let N = c.retry
+//@   let t0 = now()
+//@   let s0 = sends()
+//@   modifies *
+//@   ensures[hidden] err != errDeadlineExceeded
+//@   ensures[bound] N >= 0 ==> now() <= t0 + specBackoff(T, N) - T && sends() <= s0 + N
+//@   ensures[result] (err == nil) ==> sends() >= s0 + 1
